@@ -115,7 +115,8 @@ def case_term(op, res):
             st.append({"new": lambda: "HNew %d %d" % (x[1], x[2]), "from": lambda: "HFrom %d" % x[1],
                        "upd": lambda: "HUpd %d %d" % (x[1], x[2]),
                        "updadd": lambda: "HUpdAdd %d %d %d" % (x[1], x[2], x[3]),
-                       "updfrom": lambda: "HUpdFrom %d" % x[1], "updinf": lambda: "HUpd %d %d" % (INF, INF)}
+                       "updfrom": lambda: "HUpdFrom %d" % x[1], "updinf": lambda: "HUpd %d %d" % (INF, INF),
+                       "add": lambda: "HAdd %d" % x[1]}
                       .get(x[0], lambda: "HCopy")())
         return "CHist %s %d %d %d %d %d %s %d %d %d %d" % (
             C.coq_list(st), op[2][0], op[2][1], op[3], res[0], res[1],
@@ -224,40 +225,43 @@ def purge_valid_times(op):
     return ts
 
 
-def last_assignment(steps):
-    """what the object must hold after its history: ("val", q, r) | ("from", x) | ("add", q, r, d)"""
-    INF = f2b(math.inf)
-    cur = None
-    for x in steps:
-        if x[0] in ("new", "upd"):
-            cur = ("val", x[1], x[2])
-        elif x[0] in ("from", "updfrom"):
-            cur = ("from", x[1])
-        elif x[0] == "updadd":
-            cur = ("add", x[1], x[2], x[3])
-        elif x[0] == "updinf":
-            cur = ("val", INF, INF)
-    return cur
-
-
 def oracle_hist(op, res):
-    if len(res) != 21:
+    if len(res) != 23:
         return "result shape"
+    steps, trail, msgs = op[1], res[21], res[22]
+    if msgs:
+        return "aliasing after history %s: %s" % ("/".join(x[0] for x in steps), "; ".join(msgs))
     if res[18] != 1:
         return "update()/copy aliased or changed another Time object (or returned a value)"
     if list(res[19:21]) != list(res[0:2]):
         return "operations changed the Time object"
-    fq, fr = res[0], res[1]
-    la = last_assignment(op[1])
-    if la[0] == "val":
-        if (fq, fr) != (la[1], la[2]):
-            return "Time object does not hold the value of its last assignment: (%r, %r) instead of (%r, %r)" % (
-                b2f(fq), b2f(fr), b2f(la[1]), b2f(la[2]))
-    else:
-        m = oracle(["from", la[1]], [fq, fr]) if la[0] == "from" else oracle(["add", la[1], la[2], la[3]], [fq, fr])
+    if len(trail) != len(steps) or list(trail[-1]) != list(res[0:2]):
+        return "result shape (trail)"
+    INF = f2b(math.inf)
+    hist = "after history %s: " % "/".join(x[0] for x in steps)
+    prev = None
+    for n, (x, tr) in enumerate(zip(steps, trail)):
+        tr = list(tr)
+        m = None
+        if x[0] in ("new", "upd"):
+            if tr != [x[1], x[2]]:
+                m = "Time object does not hold the value of its last assignment: (%r, %r) instead of (%r, %r)" % (
+                    b2f(tr[0]), b2f(tr[1]), b2f(x[1]), b2f(x[2]))
+        elif x[0] == "updinf":
+            if tr != [INF, INF]:
+                m = "Time object updated from inf holds (%r, %r)" % (b2f(tr[0]), b2f(tr[1]))
+        elif x[0] in ("from", "updfrom"):
+            m = oracle(["from", x[1]], tr)
+        elif x[0] == "updadd":
+            m = oracle(["add", x[1], x[2], x[3]], tr)
+        elif x[0] == "add":
+            m = oracle(["add", prev[0], prev[1], x[1]], tr)
+        elif tr != prev:
+            m = "%s does not hold the value of the original: (%r, %r)" % (x[0], b2f(tr[0]), b2f(tr[1]))
         if m:
-            return "value after the history: " + m
-    hist = "after history %s: " % "/".join(x[0] for x in op[1])
+            return hist + "step %d: %s" % (n, m)
+        prev = tr
+    fq, fr = res[0], res[1]
     for m in (oracle(["cmp", fq, fr, op[2][0], op[2][1]], list(res[2:8])),
               oracle(["cmp", op[2][0], op[2][1], fq, fr], list(res[8:14])),
               oracle(["add", fq, fr, op[3]], list(res[14:16])),
@@ -311,6 +315,13 @@ def hist_ops(ctx, n):
             elif v < 0.70:
                 steps.append(["updinf"])
                 nupd += 1
+            elif v < 0.86:
+                # the object becomes the RESULT of an addition (+ inf, + 0.0, + finite), later steps mutate that result
+                z = rng.random()
+                d = math.inf if z < 0.4 else (0.0 if z < 0.55 else rng.expovariate(1.0) * 10 ** rng.randrange(-6, 3))
+                steps.append(["add", f2b(d)])
+                if vals and math.isfinite(d):
+                    vals.append((vals[-1][0] + math.floor(d), 0.5))
             else:
                 steps.append([rng.choice(["copy", "deepcopy", "pickle", "dill"])])
         if nupd == 0:
@@ -505,6 +516,10 @@ ASSUME = [
     "the model is tied to the code by bit-exact differential evaluation on generated inputs, not by a semantics of Python",
     "heap.c's comparison is the same quotient-then-remainder function (checked in C06)",
     "Time defines __eq__ without __hash__ (unhashable) and no __float__: neither is exercised",
+    "results of operations are fresh values in the (functional) Coq model; aliasing — a result of +, from_float or a "
+    "copy being the module constant inf or an earlier object, an update() reaching another object, the module constant "
+    "changing — is checked on the implementation only, by keeping every returned Time alive and re-reading it after "
+    "every mutation, plus a probe that fresh Heap/List schedulers still hand back a finite event",
 ]
 
 
